@@ -131,7 +131,7 @@ func (d *diffJ) apply(e *diffEnv, k int) (res string, ok bool) {
 	case 2:
 		return vstr(toInt(e.nodes[st.src].Value())), true
 	}
-	x := HOp{G: src.G, Kind: src.Kind, Path: src.Path, Val: src.Val, Nil: src.Nil, H: src.H}
+	x := HOp{G: src.G, Kind: src.Kind, Path: src.Path, Val: src.Val, Nil: src.Nil, H: src.H, Sorted: src.Sorted}
 	var l *ctree.Leaf
 	if x.Kind == "hval" || x.Kind == "hupd" {
 		if l = e.hnd[x.H]; l == nil {
@@ -232,6 +232,11 @@ func (d *diffJ) dfs(done []bool, path []int, e *diffEnv) (found bool) {
 func diffJudge(h *History, budget int) (v diffVerdict) {
 	if h.Panic != "" {
 		return diffVerdict{msg: "an operation panicked: " + h.Panic}
+	}
+	// a value of a type nobody stored cannot be reproduced by any order (and the
+	// queries and walks that overlapped other operations are not re-executed below)
+	if _, m := foreignResult(h); m != "" {
+		return diffVerdict{msg: m}
 	}
 	for i := range h.Ops {
 		if h.Ops[i].Ret < h.Ops[i].Call {
